@@ -6,7 +6,9 @@ Implementation functions driven (real code from $VERIF_REPO/src/highdicom/volume
   Volume/VolumeGeometry.map_reference_to_indices(round_output, check_bounds),
   Volume.match_geometry(mode=CONSTANT/EDGE/MINIMUM/MAXIMUM/MEAN/MEDIAN, constant_value=...) (voxel values compared),
   result.geometry_equal(target, tol=T) after a successful match, VolumeToVolumeTransformer.affine,
-  map_indices_to_reference, and transformer vs. map_indices_to_reference -> map_reference_to_indices on the same points.
+  map_indices_to_reference, and transformer vs. map_indices_to_reference -> map_reference_to_indices on the same points;
+  the transformer called with index arrays of every integer / floating dtype (int8..int64, uint8..uint64, float32,
+  float64): returned values, dtype of the returned array, bounds decision, side by side with the physical route.
 Model: coq/theories/C09_Model.v; theorems: C09_Props.v.
 
 Geometries are generated as exact rationals (orthonormal rational direction
@@ -42,11 +44,14 @@ MODELLED = ('volume.py: _VolumeBase.geometry_equal, match_geometry (axis alignme
             'rounding, RuntimeError), VolumeToVolumeTransformer (inv(B).A by adjugate, rounding, bounds check '
             'after rounding, ValueError), VolumeToVolumeTransformer.affine, map_indices_to_reference, '
             'the pad options of match_geometry as implemented by Volume.pad (constant_value; EDGE = nearest '
-            'source voxel per axis; MINIMUM/MAXIMUM/MEAN/MEDIAN of the label array)')
+            'source voxel per axis; MINIMUM/MAXIMUM/MEAN/MEDIAN of the label array); the dtype handling of '
+            'VolumeToVolumeTransformer.__call__ (input_is_int = signed only, rounded output cast to the signed input '
+            'type / int64 by two\'s complement, unrounded output cast back to a non-integer input type, bounds check '
+            'after the cast, dtype of the returned array)')
 STRATA = ['geq', 'geq_for', 'geq_tol', 'match_direct', 'match_chain', 'match_outside', 'match_geomsrc',
           'match_perturbed', 'match_refuse_meta', 'v2v', 'v2v_boundary', 'v2v_outside', 'r2i', 'r2i_boundary',
           'bad_points', 'match_mode', 'v2v_affine', 'i2r', 'via_phys',
-          'match_tiny_spacing']
+          'match_tiny_spacing', 'v2v_dtype', 'v2v_unsigned_neg']
 RULE = ('source geometries: rational orthonormal directions (48 signed permutations, Pythagorean and quaternion '
         'rotations, optionally mirrored), rational spacings, dyadic/rational positions, shapes 1..5 (..7 thorough), '
         'both coordinate systems, FoR UID present/absent; targets: (a) exact (sigma,k,a,m) per-axis '
@@ -55,9 +60,21 @@ RULE = ('source geometries: rational orthonormal directions (48 signed permutati
         'must refuse, 1e-6 must be accepted), target spacing 1e-11 .. 0.49 x source spacing (stride rounds to 0, must refuse), other FoR '
         'UID / coordinate system; geometry_equal pairs with every clause violated once and deltas at 0.5/0.99/1.01/2 x '
         'the allclose threshold; point sets inside, exactly on the +-0.5 faces (dyadic geometries) and outside, '
-        'int and float inputs, round_output x check_bounds; malformed point arrays. non-trivial = source with > 1 '
+        'int and float inputs, round_output x check_bounds; malformed point arrays; index arrays of dtype int8/16/32/64, '
+        'uint8/16/32/64, float32/64 given to the transformer (related and unrelated geometries, images inside / negative '
+        '/ beyond the target, target axes longer than 256 voxels, int8 images exactly at 127 / -128; narrow signed types '
+        'only with images that fit; unsigned types only with round_output=True unless C09_UNSIGNED_UNROUNDED=1 - open '
+        'defect), stratum v2v_unsigned_neg = unsigned input with >= 1 negative image. non-trivial = source with > 1 '
         'voxel and (for point cases) >= 1 point; distinct by case hash')
-NOT_EXECUTED = ['per_channel=True statistics padding of multi-channel volumes in match_geometry']
+NOT_EXECUTED = ['per_channel=True statistics padding of multi-channel volumes in match_geometry',
+                'VolumeToVolumeTransformer with an UNSIGNED index array and round_output=False (reported defect of the '
+                'unchanged code: result cast to the unsigned type; modelled, refuted in C09_v2v_dtype_unsigned_unrounded_'
+                'refuted, generated only with C09_UNSIGNED_UNROUNDED=1)',
+                'signed int8/int16/int32 index arrays whose rounded image does not fit the input type (documented '
+                '"matched to the input datatype": wraps; outside the fits-hypothesis of C09_v2v_dtype_rounded_exact)']
+# the combination unsigned x unrounded violates the property on the unchanged code (see NOT_EXECUTED); switch on to
+# replay the refutation witness class against the real code
+UNSIGNED_UNROUNDED = os.environ.get('C09_UNSIGNED_UNROUNDED') == '1'
 EXHAUSTIVE = {'quick': False, 'thorough': False}
 
 FOR_UIDS = {None: None, 1: '1.2.826.0.1.3680043.8.498.1', 2: '1.2.826.0.1.3680043.8.498.2'}
@@ -674,6 +691,162 @@ def _pts_case(rng, hi, kind):
     return c
 
 
+# ---- dtype of the index array handed to the transformer ---------------------------------------------
+SIGNED = ['int8', 'int16', 'int32', 'int64']
+UNSIGNED = ['uint8', 'uint16', 'uint32', 'uint64']
+FLOATS = ['float32', 'float64']
+DT_RANGE = {'int8': (-2**7, 2**7 - 1), 'int16': (-2**15, 2**15 - 1), 'int32': (-2**31, 2**31 - 1),
+            'int64': (-2**63, 2**63 - 1), 'uint8': (0, 2**8 - 1), 'uint16': (0, 2**16 - 1),
+            'uint32': (0, 2**32 - 1), 'uint64': (0, 2**64 - 1)}
+DT_COQ = {'int8': '(DInt W8)', 'int16': '(DInt W16)', 'int32': '(DInt W32)', 'int64': '(DInt W64)',
+          'uint8': '(DUInt W8)', 'uint16': '(DUInt W16)', 'uint32': '(DUInt W32)', 'uint64': '(DUInt W64)',
+          'float32': '(DFloat W32)', 'float64': '(DFloat W64)'}
+
+
+def _rhe(v):
+    """round half to even of a Fraction"""
+    f = v.numerator // v.denominator
+    r = v - f
+    if r < F(1, 2):
+        return f
+    if r > F(1, 2):
+        return f + 1
+    return f if f % 2 == 0 else f + 1
+
+
+def _margin_rel(idx, shape, rel):
+    """no coordinate within rel * max(1, |v|) of a bounds threshold or a rounding tie"""
+    for v, n in zip(idx, shape):
+        eps = rel * max(F(1), abs(v))
+        if abs(v + F(1, 2)) < eps or abs(v - (n - F(1, 2))) < eps:
+            return False
+        if abs(v - (v.numerator // v.denominator) - F(1, 2)) < eps:
+            return False
+    return True
+
+
+def _v2v_dtype(rng, hi, kind):
+    """transformer(index array of a given dtype): related (derived) or unrelated target, images inside / negative /
+    beyond the target; kind v2v_unsigned_neg forces an unsigned dtype, rounding and >= 1 negative image"""
+    neg = kind == 'v2v_unsigned_neg'
+    g = rand_geom(rng, hi)
+    if neg:
+        dt = rng.choice(UNSIGNED)
+    else:
+        dt = rng.choice(SIGNED + UNSIGNED + FLOATS + ['uint8', 'int8', 'float32'])
+    isint = dt not in FLOATS
+    unsigned = dt in UNSIGNED
+    rnd = True if (unsigned and not UNSIGNED_UNROUNDED) else rng.random() < 0.55
+    lo_in = DT_RANGE[dt][0] if isint else None
+    free = rng.random() < (0.25 if neg else 0.3)
+    rel = F(1, 10**4) if dt == 'float32' else F(1, 10**6)
+    pts, spec = [], None
+    if free:
+        h = rand_geom(rng, hi)
+        if rng.random() < 0.3:
+            d = rng.randrange(3)
+            h['shape'][d] = rng.randint(257, 400)
+        n = h['shape']
+        ch = g_cols(h)
+        npts = rng.choice([1, 2, 3, 4])
+        tries = 0
+        while len(pts) < npts and tries < 300:
+            tries += 1
+            t = []
+            for d in range(3):
+                w = rng.choice(['in', 'in', 'neg', 'beyond'])
+                if neg and not pts and d == tries % 3:
+                    w = 'neg'
+                if w == 'in':
+                    t.append(F(rng.randint(0, 8 * n[d] - 8), 8))
+                elif w == 'neg':
+                    t.append(F(-rng.randint(5, 40), 8))
+                else:
+                    t.append(n[d] - 1 + F(rng.randint(5, 24), 8))
+            x = [gP(h)[i] + sum(ch[j][i] * t[j] for j in range(3)) for i in range(3)]
+            p = _exact_ref2idx(g, x)
+            if isint:
+                p = [F(round(v)) for v in p]
+                if unsigned:
+                    p = [max(v, F(0)) for v in p]
+                if any(v < DT_RANGE[dt][0] or v > DT_RANGE[dt][1] for v in p):
+                    continue
+            elif dt == 'float32':
+                p = [F(round(v * 8), 8) for v in p]
+                if any(abs(v) > 2**15 for v in p):
+                    continue
+            idx = _exact_index(g, h, p)
+            if not _margin_rel(idx, n, rel):
+                continue
+            if neg and not pts and not any(v < F(-1, 2) for v in idx):
+                continue
+            pts.append([str(v) for v in p])
+        if not pts:
+            free = False
+    if not free:
+        sig = [0, 1, 2]
+        rng.shuffle(sig)
+        k = [rng.choice([1, 1, 1, 2, 3, -1, -1, -2]) for _ in range(3)]
+        a = [rng.randint(-2, g['shape'][sig[d]] + 1) for d in range(3)]
+        m = [rng.randint(1, 6) for _ in range(3)]
+        if rng.random() < (0.4 if dt in ('uint8', 'int8') else 0.2):
+            m[rng.randrange(3)] = rng.randint(257, 400)       # a wrapped 8-bit value can look in-bounds
+        # one forced image coordinate of the first point: negative (unsigned inputs: the output type must hold
+        # it), or exactly the last / first value an int8 result can hold
+        forced = None
+        if neg or (unsigned and rng.random() < 0.5):
+            forced = (rng.randrange(3), -rng.choice([1, 1, 2, 3, 4, 7]))
+        elif dt == 'int8' and rnd and rng.random() < 0.3:
+            d = rng.randrange(3)
+            k[d] = rng.choice([1, -1])
+            forced = (d, rng.choice([127, -128, 126, -127]))
+            m[d] = rng.choice([m[d], 128, 130])
+        if forced:
+            d, t0 = forced
+            p0 = rng.randint(0, g['shape'][sig[d]] + 1)
+            a[d] = p0 - k[d] * t0
+        h = derive_target(g, sig, k, a, m)
+        spec = {'sigma': sig, 'k': k, 'a': a, 'm': m}
+        npts = rng.choice([1, 2, 3, 4])
+        tries = 0
+        while len(pts) < npts and tries < 300:
+            tries += 1
+            p = [None] * 3
+            for d in range(3):
+                if forced and not pts and d == forced[0]:
+                    t = F(forced[1])
+                else:
+                    w = rng.choice(['in', 'in', 'in', 'neg', 'beyond'])
+                    den = 1 if isint else rng.choice([1, 2, 8, 8])
+                    if w == 'in':
+                        t = F(rng.randint(0, den * (m[d] - 1)), den)
+                    elif w == 'neg':
+                        t = F(-rng.randint(1, 4 * den), den)
+                    else:
+                        t = m[d] - 1 + F(rng.randint(1, 3 * den), den)
+                p[sig[d]] = a[d] + k[d] * t
+            if isint and any(v < DT_RANGE[dt][0] or v > DT_RANGE[dt][1] for v in p):
+                continue
+            idx = _exact_index(g, h, p)
+            if not _margin_rel(idx, m, rel):
+                continue
+            pts.append([str(v) for v in p])
+        if not pts:
+            raise AssertionError('v2v_dtype: no admissible point')      # cannot happen: the forced point is admissible
+    # narrow signed inputs: "matched to the input datatype if possible" - keep to images the type can hold
+    if dt in SIGNED and rnd:
+        r = [_rhe(v) for p in pts for v in _exact_index(g, h, [F(x) for x in p])]
+        fit = [x for x in SIGNED if DT_RANGE[x][0] <= min(r) and max(r) <= DT_RANGE[x][1] and
+               all(DT_RANGE[x][0] <= F(v) <= DT_RANGE[x][1] for p in pts for v in p)]
+        if dt not in fit:
+            dt = fit[0]
+    c = {'kind': kind, 'g': g, 'h': h, 'pts': pts, 'round': rnd, 'check': rng.random() < 0.5, 'in_dtype': dt,
+         'related': not free, 'kinds': [rng.choice(['geometry', 'volume']), rng.choice(['geometry', 'volume'])]}
+    if spec:
+        c['spec'] = spec
+    return c
+
+
 def gen_cases(rng, tier):
     n = {'quick': 60, 'thorough': 1500, 'search': 400}[tier]
     hi = 5 if tier == 'quick' else 7
@@ -712,6 +885,10 @@ def gen_cases(rng, tier):
         cases.append(_pts_case(rng, hi, 'via_phys'))
     for _ in range(n // 2):
         cases.append(_pts_case(rng, hi, 'via_phys_b'))
+    for _ in range(2 * n):
+        cases.append(_v2v_dtype(rng, hi, 'v2v_dtype'))
+    for _ in range(n):
+        cases.append(_v2v_dtype(rng, hi, 'v2v_unsigned_neg'))
     return cases
 
 
@@ -779,6 +956,34 @@ def _run_points_ext(c):
     return [catch(direct), catch(via)]
 
 
+def _dt_code(dt):
+    return {'i': 100, 'u': 200, 'f': 300}.get(dt.kind, 900) + 8 * dt.itemsize
+
+
+def _run_dtype(c):
+    """[ transformer(index array of dtype in_dtype) -> [values, dtype code of the returned array] | Err,
+         physical route on the same array -> values | Err ]"""
+    import numpy as np
+    import highdicom as hd
+    a = build(c['g'], c['kinds'][0])
+    b = build(c['h'], c['kinds'][1])
+    dt = np.dtype(c['in_dtype'])
+    if dt.kind in 'iu':
+        pts = np.array([[int(F(v)) for v in p] for p in c['pts']], dtype=dt).reshape(-1, 3)
+    else:
+        pts = np.array([[float(F(v)) for v in p] for p in c['pts']], dtype=np.float64).reshape(-1, 3).astype(dt)
+
+    def direct():
+        t = hd.VolumeToVolumeTransformer(a, b, round_output=c['round'], check_bounds=c['check'])
+        out = t(pts)
+        return [out.tolist(), _dt_code(out.dtype)]
+
+    def via():
+        x = a.map_indices_to_reference(pts)
+        return b.map_reference_to_indices(x, round_output=c['round'], check_bounds=c['check']).tolist()
+    return [catch(direct), catch(via)]
+
+
 def run_impl(c):
     import numpy as np
     import highdicom as hd
@@ -793,6 +998,8 @@ def run_impl(c):
         return bool(a.geometry_equal(b, tol=tol))
     if k in ('v2v_affine', 'i2r', 'via_phys'):
         return _run_points_ext(c)
+    if k in ('v2v_dtype', 'v2v_unsigned_neg'):
+        return _run_dtype(c)
     if k.startswith('match'):
         src = build(c['g'], c['src_kind'], c.get('channels', 0), c.get('dtype', 'float64'))
         if c['tgt_kind'] == 'chain':
@@ -889,6 +1096,16 @@ def coq_term(c):
         if k == 'i2r':
             return f"(run_idx2ref {g_coq(c['g'])} {pts})"
         return f"(run_via_phys {g_coq(c['g'])} {g_coq(c['h'])} {_b(c['round'])} {_b(c['check'])} {pts})"
+    if k in ('v2v_dtype', 'v2v_unsigned_neg'):
+        if c['in_dtype'] == 'float32' and not c['round']:
+            # the unrounded result is rounded to float32 (oracle premise): model-compared only when every image is
+            # exactly representable (related geometries, dyadic images), judged by the oracle alone otherwise
+            idx = [v for p in c['pts'] for v in _exact_index(c['g'], c['h'], [F(x) for x in p])]
+            if any((v * 1024).denominator != 1 or abs(v) > 4096 for v in idx):
+                return None
+        pts = '[' + '; '.join(_v3(p) for p in c['pts']) + ']'
+        return (f"(run_v2v_dt {DT_COQ[c['in_dtype']]} {g_coq(c['g'])} {g_coq(c['h'])} {_b(c['round'])} "
+                f"{_b(c['check'])} {pts})")
     if k.startswith('match'):
         tol = q(c['tol']) if c.get('tol') is not None else '(1 # 100000)%Q'
         fn = 'run_match_g' if c['src_kind'] == 'geometry' else 'run_match'
@@ -1105,6 +1322,23 @@ def _oracle_points_ext(c, out):
     return None
 
 
+def _oracle_dtype(c, out):
+    """transformer on an index array of dtype in_dtype: the values are judged through physical coordinates exactly
+    as for any other input (the dtype of the caller's array must not matter), the physical route likewise, both
+    against each other; the returned array must be of a signed integer type when rounded, of a float type otherwise"""
+    direct, via = out
+    vals = direct
+    if not isinstance(direct, Err):
+        vals, code = direct
+        want = 1 if c['round'] else 3
+        if code // 100 != want:
+            name = {1: 'int', 2: 'uint', 3: 'float'}.get(code // 100, 'other') + str(code % 100)
+            return (f'{c["in_dtype"]} input, round_output={c["round"]}: the returned array has dtype {name}, '
+                    f'expected {"a signed integer" if c["round"] else "a floating point"} type; values {vals}')
+    msg = _oracle_points_ext(dict(c, kind='via_phys', orig_kind='v2v', int_input=False), [vals, via])
+    return f'{c["in_dtype"]} input: {msg}' if msg else None
+
+
 def oracle(c, out):
     k = c['kind']
     if k.startswith('geq'):
@@ -1113,6 +1347,8 @@ def oracle(c, out):
         return _oracle_match_mode(c, out)
     if k in ('v2v_affine', 'i2r', 'via_phys'):
         return _oracle_points_ext(c, out)
+    if k in ('v2v_dtype', 'v2v_unsigned_neg'):
+        return _oracle_dtype(c, out)
     if k.startswith('match'):
         return _oracle_match(c, out)
     if k == 'bad_points':
@@ -1131,6 +1367,10 @@ def nontrivial(c, out):
         return nvox > 1
     if c['kind'].startswith('geq'):
         return True
+    if c['kind'] == 'v2v_unsigned_neg':
+        # an unsigned index array with at least one image before the first voxel of the target
+        return c['in_dtype'] in UNSIGNED and any(
+            v < F(-1, 2) for p in c['pts'] for v in _exact_index(c['g'], c['h'], [F(x) for x in p]))
     return len(c['pts']) >= 1
 
 
